@@ -17,6 +17,10 @@ CHECKS = {
    text="Lean theorems over the byte-exact preimages of Info.Hash and Group.Hash (layouts regenerated from the source and tied by rfl): determinism incl. id canonicalisation, every single-field change (period, genesis, public key, seed, id; member key/index, threshold, genesis, transition incl. 0<->non-0, dist key, id) changes the preimage (inner hashes under an explicit collision-freedom hypothesis), joint injectivity under fixed key/seed lengths with the seed/id ambiguity exhibited otherwise, independence of node listing order (sorting of a permutation with distinct indices), chain hash ignores membership, decode rejects a mismatching embedded hash. Tied to the code by hashing the model's preimage (python hashlib) and comparing with the real Hash() on generated groups over all 5 schemes, plus equality across TOML/protobuf/JSON paths and inequality under perturbation on the real code.",
    note="Lean kernel + standard axioms; SHA-256/BLAKE2b collision freedom is a hypothesis; go2lean layout extractor; python hashlib; kyber point encodings opaque.",
    technique="Lean 4 proof (list/byte algebra, permutation sorting) + regenerated hash layouts tied by rfl + differential hash comparison"),
+ "C02": dict(engine="chain", design="§3 C02",
+   text="Lean theorems over the store stack appendStore→schemeStore→base map as coded: for every sequence of Puts (aggregation and sync interleaved arbitrarily — both go through the one mutex-held appendStore.Put, a regenerated lock fact) and restarts, the stored rounds are exactly 0..head, linked by previous signatures (chained) or stripped of them (unchained), the wrappers' cached head equals the stored head; a successful Put writes exactly head+1 and changes no stored round, any other Put changes nothing (re-put of the head answers 'already' iff equal); two nodes whose stores satisfy the invariant and hold only verifying beacons agree byte for byte on every common round (induction on the round, under the explicit uniqueness-of-BLS-signatures hypothesis); the repair path cannot replace a valid beacon by a different valid one. Tied to the code by running the real newAppendStore(NewSchemeStore(base)) over trimmed bolt, untrimmed bolt and memdb against the model and against a gap-free/append-only oracle.",
+   note="Lean kernel + standard axioms; base store = sorted map (C18 correspondence); sync.Mutex semantics; SigUnique hypothesis; multi-node agreement is the theorem c02_agree plus C01/C10 validity, real multi-node runs are exercised under C05.",
+   technique="Lean 4 proof (invariant by induction over op sequences; agreement by induction on rounds) + regenerated lock facts + differential correspondence"),
 }
 NOT_YET = {}
 for i in range(1, 21):
